@@ -18,15 +18,16 @@ from ..core.framework import Ctx, b2s
 
 SPEC = {
     "modules": ["HC.Props.C19"],
-    "extracted": ["Cli", "Consts", "ConfigSites"],
+    "extracted": ["Cli", "Consts", "ConfigSites", "ConfigState"],
     "technique": "Lean 4: `decide` over the CLI table regenerated from __main__.py + a general semantics theorem for the wiring; structural proofs for bind parsing, root_path, date arithmetic (omega) — tied by differential execution of every loader, every flag, bind shapes and sampled timestamps",
-    "level_text": "Proved in Lean: the command-line table extracted from the current __main__.py is wired one-to-one per a hand-written specification (decided exhaustively), and for ANY set of given flags the executed assignments are exactly 'application_path, then each given flag's own attribute := its own value' (cli_semantics, cli_sets_exactly, cli_pair, cli_absent_flag_is_noop); root_path is the given value minus trailing slashes; a bind given as str equals the one-element list; all loaders reduce to from_mapping: the object loaders drop exactly dunder names and imported modules - the filter clauses are extracted from Config.from_object, so a class- or function-valued setting (logger_class) is handed on like any other (from_object_filter_spec, loaders_agree, from_object_drops, from_object_callable_setting) - and one more key changes exactly its own attribute; from_mapping hands EVERY key to setattr - the statements of its loop are extracted, none skips a key - so a setting whose attribute cannot be read back (the write-only cert_reqs, the annotation-only application_path) is stored like any other, cert_reqs = n storing VerifyMode(n) under verify_mode exactly as --cert-reqs n does (from_mapping_guard_spec, cert_reqs_loaded, application_path_loaded, from_mapping_stores); the address family of an inet bind is decided by the parsed host alone - AF_INET6 iff it contains a colon, with or without brackets; the test is extracted from _create_sockets (bind_family_spec, bind_family_of_host, bind_bare_v6_unbracketed); a LIST of bind strings is parsed entry by entry - no local of the loop `for bind in binds` outlives an iteration (definite-assignment analysis of the loop body, extracted), so every entry is bound as if given alone, a bare host to port 8000 wherever it stands (create_sockets_loop_spec, create_sockets_pointwise, create_sockets_entry, bind_bare_host_in_list, bind_bare_v6_in_list); host:port / bare host / [v6]:port / unix: / fd:// parse to the intended family, address and port for every host and port string of the stated shape; the date header is a 29-character IMF-fixdate with every field in range for every second up to year 9999; response headers are exactly date/server/alt-svc per the switches. Tie: every flag alone and in pairs through the real main(), every public key (logger_class, Logger instances and ssl enums included) through all loaders - mapping, keywords, object, class, module, module.attribute, Python file, TOML file, the command line's -c file: / -c python: / -c toml (files written to disk) and the setting's own command-line flag where the flag can spell the value; keys that cannot be read back included (cert_reqs judged on verify_mode AND on the TLS context create_ssl_context() builds, application_path); a loader that raises is a violation, not a harness error; bind strings (bracketed and unbracketed IPv6 literals, stream and datagram sockets), alone and in lists, through the real _create_sockets / create_sockets (recorded bind() arguments and real sockets), timestamps against wsgiref's formatter.",
+    "level_text": "Proved in Lean: the command-line table extracted from the current __main__.py is wired one-to-one per a hand-written specification (decided exhaustively), and for ANY set of given flags the executed assignments are exactly 'application_path, then each given flag's own attribute := its own value' (cli_semantics, cli_sets_exactly, cli_pair, cli_absent_flag_is_noop); root_path is the given value minus trailing slashes; a bind given as str equals the one-element list; all loaders reduce to from_mapping: the object loaders drop exactly dunder names and imported modules - the filter clauses are extracted from Config.from_object, so a class- or function-valued setting (logger_class) is handed on like any other (from_object_filter_spec, loaders_agree, from_object_drops, from_object_callable_setting) - and one more key changes exactly its own attribute; from_mapping hands EVERY key to setattr - the statements of its loop are extracted, none skips a key - so a setting whose attribute cannot be read back (the write-only cert_reqs, the annotation-only application_path) is stored like any other, cert_reqs = n storing VerifyMode(n) under verify_mode exactly as --cert-reqs n does (from_mapping_guard_spec, cert_reqs_loaded, application_path_loaded, from_mapping_stores); the address family of an inet bind is decided by the parsed host alone - AF_INET6 iff it contains a colon, with or without brackets; the test is extracted from _create_sockets (bind_family_spec, bind_family_of_host, bind_bare_v6_unbracketed); a LIST of bind strings is parsed entry by entry - no local of the loop `for bind in binds` outlives an iteration (definite-assignment analysis of the loop body, extracted), so every entry is bound as if given alone, a bare host to port 8000 wherever it stands (create_sockets_loop_spec, create_sockets_pointwise, create_sockets_entry, bind_bare_host_in_list, bind_bare_v6_in_list); host:port / bare host / [v6]:port / unix: / fd:// parse to the intended family, address and port for every host and port string of the stated shape; the date header is a 29-character IMF-fixdate with every field in range for every second up to year 9999; response headers are exactly date/server/alt-svc per the switches; with SEVERAL Config objects in one process and any history of Config() / attribute assignments / create_sockets() on them (HC/Pure/ConfigObjects.lean: the class-level `_quic_addresses` list, per object its settings and the list the instance has bound), the class-level list is never changed, every object is exactly what the operations applied to IT make of it, and its headers are a function of its own switches, its own alt-svc values and the QUIC ports of its own LAST create_sockets() under TLS - a Config() made after any history answers with date and server only, a second create_sockets() replaces the ports of the first (history_own, history_object, response_headers_own, fresh_config_headers, create_sockets_again, alt_svc_of_own_sockets); the facts about the source are extracted: `_set_quic_addresses` starts from a fresh empty list bound on the instance, no mutable class-level default (or module-level name) of config.py is changed in place anywhere in the package without a preceding rebinding on the same object, no attribute is kept on the class, nothing is memoised (quic_addresses_reset_spec, config_shared_state_spec). Tie: every flag alone and in pairs through the real main(), every public key (logger_class, Logger instances and ssl enums included) through all loaders - mapping, keywords, object, class, module, module.attribute, Python file, TOML file, the command line's -c file: / -c python: / -c toml (files written to disk) and the setting's own command-line flag where the flag can spell the value; keys that cannot be read back included (cert_reqs judged on verify_mode AND on the TLS context create_ssl_context() builds, application_path); a loader that raises is a violation, not a harness error; bind strings (bracketed and unbracketed IPv6 literals, stream and datagram sockets), alone and in lists, through the real _create_sockets / create_sockets (recorded bind() arguments and real sockets), timestamps against wsgiref's formatter; histories of operations on one to four Config objects (fixed shapes + random; recorded sockets and real loopback sockets) with the headers and public settings of EVERY object compared after EVERY operation with what its own operations ask for, and with the model run on the same history.",
     "level_note": "Trusted: Lean kernel; extractor (argparse table and wiring recognised by shape, unknown shapes fail the tie); hand-written model HC/Pure/Config.lean; argparse, tomllib, importlib and the socket layer are runtime behaviour compared by execution only; Python int() accepts more spellings than the model's decimal parser (generator stays within decimal digits).",
-    "rule": "CLI: every wired flag alone (exhaustive) + flag pairs (quick: sample, thorough: all) with distinct random values, with/without a TOML file setting the same key; loaders: every public Config key x its value types (literals; a Logger subclass and a logger factory function for logger_class; logging.Logger instances; ssl.VerifyMode / VerifyFlags members; cert_reqs 0/1/2 and a member; application_path) x 13 loaders (an instance whose class carries the setting included), TOML / the flag only for values they can spell; binds: shape grid (host:port, bare host, [v6]:port, [v6], bare v6 without brackets, v6 without brackets that also reads as host:port, unix, fd) x hosts x ports x socket type via recorded bind() arguments, plus real sockets (incl. a real bind of `::`); bind LISTS: every ordered pair of the eight shapes, a unix / fd entry between an entry with and one without a port, random lists of 3-6 entries (stream and datagram), and bind + insecure_bind + quic_bind together through Config.create_sockets() - each socket judged against the intention of its own entry; dates: boundary + random timestamps. distinct = (family, flag | flag pair | (loader,key) | bind shape | date class); non-trivial = a value different from the default is supplied",
+    "rule": "CLI: every wired flag alone (exhaustive) + flag pairs (quick: sample, thorough: all) with distinct random values, with/without a TOML file setting the same key; loaders: every public Config key x its value types (literals; a Logger subclass and a logger factory function for logger_class; logging.Logger instances; ssl.VerifyMode / VerifyFlags members; cert_reqs 0/1/2 and a member; application_path) x 13 loaders (an instance whose class carries the setting included), TOML / the flag only for values they can spell; binds: shape grid (host:port, bare host, [v6]:port, [v6], bare v6 without brackets, v6 without brackets that also reads as host:port, unix, fd) x hosts x ports x socket type via recorded bind() arguments, plus real sockets (incl. a real bind of `::`); bind LISTS: every ordered pair of the eight shapes, a unix / fd entry between an entry with and one without a port, random lists of 3-6 entries (stream and datagram), and bind + insecure_bind + quic_bind together through Config.create_sockets() - each socket judged against the intention of its own entry; histories: 18 fixed shapes (another object made before / after / serving / loaded from a mapping, two QUIC objects, create_sockets() again with the same / other / fewer / no quic_bind, alt-svc values set and cleared, switches, a unix quic_bind, no TLS, real sockets) + random histories of 5-15 operations on 1-4 objects (quick 60, thorough 1500); a Config() made after every history and after every create_sockets() of the bind-list family must answer like the first one; dates: boundary + random timestamps. distinct = (family, flag | flag pair | (loader,key) | bind shape | date class); non-trivial = a value different from the default is supplied",
     "trusted": ["argparse / tomllib / importlib / socket behaviour (compared by execution, not modelled)"],
     "partial": ["bind_host_port excludes the host spelled `unix` (`unix:80` is a unix-socket path by design of the syntax)",
                 "bare bracketed IPv6 without a port is outside the proved shapes; see known finding F22 if listed",
-                "an IPv6 literal WITHOUT brackets whose last group is a decimal number (`::1`, `2001:db8::370:7334`) is also of the shape host:port and is read so (bind_unbracketed_decimal_tail); the monitor accepts either reading and demands AF_INET6"],
+                "an IPv6 literal WITHOUT brackets whose last group is a decimal number (`::1`, `2001:db8::370:7334`) is also of the shape host:port and is read so (bind_unbracketed_decimal_tail); the monitor accepts either reading and demands AF_INET6",
+                "histories do not switch TLS OFF on an object that has made sockets under TLS (create_sockets() without TLS records nothing, so the ports of the earlier call stay: the model says the same - `objStep` - and the generator stays away; see design_notes/C19.md)"],
     "assumptions": ["values round-trip through TOML / Python source (checked by the run itself: a loader that cannot represent a value is skipped for that value and counted)"],
 }
 
@@ -1204,7 +1205,8 @@ def _hist_real_set(cfg, key: str, value: Any) -> None:
 
 def gen_histories(ctx: Ctx) -> List[dict]:
     rng = ctx.rng
-    ports = iter(rng.sample(range(20000, 60000), 4000))
+    import itertools
+    ports = itertools.cycle(rng.sample(range(20000, 60000), 40000))     # distinct within any one history
 
     def qb(n: int = 1, unix: bool = False) -> Tuple[List[str], List[Optional[int]]]:
         binds: List[str] = []
